@@ -2,12 +2,11 @@ from __future__ import annotations
 
 import logging
 import numbers
-from contextlib import suppress
 
 import claripy
 from claripy import backends
 from claripy.ast import Base
-from claripy.errors import BackendError, ClaripyFrontendError
+from claripy.errors import ClaripyFrontendError, UnsatError
 
 from .constrained_frontend import ConstrainedFrontend
 
@@ -166,9 +165,24 @@ class ReplacementFrontend(ConstrainedFrontend):
     def _replace_list(self, lst):
         return tuple(self._replacement(c) for c in lst)
 
+    def _ensure_sat_if_resolved(self, e, er, ecr, exact):
+        """
+        A symbolic expression whose replacement is concrete is answered by the actual frontend without a look at its
+        constraints; a plain solver would have noticed that they are unsatisfiable.
+        """
+        if (
+            isinstance(e, Base)
+            and e.symbolic
+            and isinstance(er, Base)
+            and not er.symbolic
+            and not self._actual_frontend.satisfiable(extra_constraints=ecr, exact=exact)
+        ):
+            raise UnsatError("the constraints are unsatisfiable")
+
     def eval(self, e, n, extra_constraints=(), exact=None):
         er = self._replacement(e)
         ecr = self._replace_list(extra_constraints)
+        self._ensure_sat_if_resolved(e, er, ecr, exact)
         r = self._actual_frontend.eval(er, n, extra_constraints=ecr, exact=exact)
         if self._unsafe_replacement:
             self._add_solve_result(e, er, r[0])
@@ -177,6 +191,9 @@ class ReplacementFrontend(ConstrainedFrontend):
     def batch_eval(self, exprs, n, extra_constraints=(), exact=None):
         er = self._replace_list(exprs)
         ecr = self._replace_list(extra_constraints)
+        if all(isinstance(x, Base) and not x.symbolic for x in er):
+            for original, replaced in zip(exprs, er, strict=True):
+                self._ensure_sat_if_resolved(original, replaced, ecr, exact)
         r = self._actual_frontend.batch_eval(er, n, extra_constraints=ecr, exact=exact)
         if self._unsafe_replacement:
             for i, original in enumerate(exprs):
@@ -186,6 +203,7 @@ class ReplacementFrontend(ConstrainedFrontend):
     def max(self, e, extra_constraints=(), signed=False, exact=None):
         er = self._replacement(e)
         ecr = self._replace_list(extra_constraints)
+        self._ensure_sat_if_resolved(e, er, ecr, exact)
         r = self._actual_frontend.max(er, extra_constraints=ecr, signed=signed, exact=exact)
         if self._unsafe_replacement:
             self._add_solve_result(e, er, r)
@@ -194,6 +212,7 @@ class ReplacementFrontend(ConstrainedFrontend):
     def min(self, e, extra_constraints=(), signed=False, exact=None):
         er = self._replacement(e)
         ecr = self._replace_list(extra_constraints)
+        self._ensure_sat_if_resolved(e, er, ecr, exact)
         r = self._actual_frontend.min(er, extra_constraints=ecr, signed=signed, exact=exact)
         if self._unsafe_replacement:
             self._add_solve_result(e, er, r)
@@ -223,14 +242,9 @@ class ReplacementFrontend(ConstrainedFrontend):
         return self._actual_frontend.satisfiable(extra_constraints=ecr, exact=exact)
 
     def _concrete_value(self, e):
-        c = super()._concrete_value(e)
-        if c is not None:
-            return c
-
-        cr = self._replacement(e)
-        with suppress(BackendError):
-            return backends.concrete.eval(cr, 1)[0]
-        return None
+        # Only what is concrete as it stands: a symbolic expression that the replacements resolve to a constant still
+        # goes through eval()/min()/max() below, which check that the constraints are satisfiable at all.
+        return super()._concrete_value(e)
 
     def _concrete_constraint(self, e):
         c = super()._concrete_value(e)
